@@ -29,7 +29,8 @@ static const uint8_t *isolated_key(const uint8_t *key, int klen)
     return kiso;
 }
 
-static int g_sched_changed;   /* set when a block function modified the schedule it takes as const */
+static int g_sched_changed;
+static unsigned g_copy_toggle; static Skinny128Key_t g_copy128; static Skinny64Key_t g_copy64;   /* set when a block function modified the schedule it takes as const */
 
 static int real_skinny(int bs, const uint8_t *key, int klen, int dir,
                        const uint8_t *in, uint8_t *out)
@@ -41,9 +42,13 @@ static int real_skinny(int bs, const uint8_t *key, int klen, int dir,
         if (skinny128_set_key(&ks, key, (unsigned)klen) != 1) return 0;
         out_digest("skinny128-schedule", ks.schedule, ks.rounds * sizeof(ks.schedule[0]));
         verif_paint_stack();
-        { Skinny128Key_t b4; memcpy(&b4, &ks, sizeof(ks));
-          if (dir) skinny128_ecb_decrypt(out, in, &ks); else skinny128_ecb_encrypt(out, in, &ks);
-          if (memcmp(&b4.schedule, &ks.schedule, ks.rounds * sizeof(ks.schedule[0])) != 0 || b4.rounds != ks.rounds) g_sched_changed = 1; }
+        { Skinny128Key_t b4, *use = &ks; memcpy(&b4, &ks, sizeof(ks));
+          /* every other case uses a byte copy of the schedule while the object set_key filled in holds a pattern:
+           * the block functions get a pointer to a value, and the value is all they may depend on */
+          if ((g_copy_toggle = (unsigned)(in[0] ^ in[bs - 1] ^ key[klen - 1] ^ 1)) & 1) { memcpy(&g_copy128, &ks, sizeof(ks)); memset(&ks, 0x5C, sizeof(ks)); use = &g_copy128; }
+          if (dir) skinny128_ecb_decrypt(out, in, use); else skinny128_ecb_encrypt(out, in, use);
+          if (memcmp(&b4.schedule, &use->schedule, b4.rounds * sizeof(b4.schedule[0])) != 0 || b4.rounds != use->rounds) g_sched_changed = 1;
+          memcpy(&ks, &b4, sizeof(ks)); }
         out_digest("skinny128-block", out, 16);
     } else {
         Skinny64Key_t ks;
@@ -51,9 +56,11 @@ static int real_skinny(int bs, const uint8_t *key, int klen, int dir,
         if (skinny64_set_key(&ks, key, (unsigned)klen) != 1) return 0;
         out_digest("skinny64-schedule", ks.schedule, ks.rounds * sizeof(ks.schedule[0]));
         verif_paint_stack();
-        { Skinny64Key_t b4; memcpy(&b4, &ks, sizeof(ks));
-          if (dir) skinny64_ecb_decrypt(out, in, &ks); else skinny64_ecb_encrypt(out, in, &ks);
-          if (memcmp(&b4.schedule, &ks.schedule, ks.rounds * sizeof(ks.schedule[0])) != 0 || b4.rounds != ks.rounds) g_sched_changed = 1; }
+        { Skinny64Key_t b4, *use = &ks; memcpy(&b4, &ks, sizeof(ks));
+          if ((g_copy_toggle = (unsigned)(in[0] ^ in[bs - 1] ^ key[klen - 1] ^ 1)) & 1) { memcpy(&g_copy64, &ks, sizeof(ks)); memset(&ks, 0x5C, sizeof(ks)); use = &g_copy64; }
+          if (dir) skinny64_ecb_decrypt(out, in, use); else skinny64_ecb_encrypt(out, in, use);
+          if (memcmp(&b4.schedule, &use->schedule, b4.rounds * sizeof(b4.schedule[0])) != 0 || b4.rounds != use->rounds) g_sched_changed = 1;
+          memcpy(&ks, &b4, sizeof(ks)); }
         out_digest("skinny64-block", out, 8);
     }
     return 1;
